@@ -413,8 +413,80 @@ pub fn c13(ctx: &mut Ctx) {
                 }
             }
         }
-        // back-to-back sequences and RLP lists of 1..=8 valid records
+        // every record size 100..=300: alone, followed by one byte, and as the first of two in a stream / list
         let kts: Vec<KT> = dec::kts().into_iter().filter(|k| k.reads(scheme)).collect();
+        if !cfg!(miri) && (b < 12 || !q) {
+            let small = Rec::minimal(rec.key, 1 + below(&mut r, 300));
+            let tail = Rec::minimal(rec.key, 9).bytes();
+            for size in 100..=300usize {
+                let rs = match gen::pad_to(&small, b"pad", size) {
+                    Some(x) => x.bytes(),
+                    None => continue,
+                };
+                for &kt in &kts {
+                    ctx.count("evaluations");
+                    ctx.count("stream.size-sweep");
+                    ctx.distinct(h64(&[&(size as u64).to_le_bytes(), kt.name().as_bytes(), b"size-sweep"]));
+                    let replay = || json!({"kind": "stream", "kt": kt.name(), "item": hex(&rs), "suffix": hex(&tail), "class": "size-sweep"});
+                    let mut buf = rs.clone();
+                    buf.extend_from_slice(&tail);
+                    match decode_seq_kt(kt, &buf, 2) {
+                        Ok(v) => {
+                            if v.len() != 2 || v[0].0 != rs || v[0].1 != tail.len() || v[1].0 != tail || v[1].1 != 0 {
+                                ctx.violate("C13", "sequence-yields-other-records", &format!("size-sweep/{}", kt.name()), || format!("record of {size} bytes followed by a second record"), replay);
+                            }
+                        }
+                        Err(e) => ctx.violate("C13", "sequence-of-valid-records-rejected", &format!("size-sweep/{}", kt.name()), || format!("record of {size} bytes followed by a second record: {e}"), replay),
+                    }
+                    let listed = crate::props::rlp_wrap_list(&[rs.clone(), tail.clone()]);
+                    let (res, left, _p) = dec::list_kt(kt, &listed);
+                    match res {
+                        Ok(v) if v.len() == 2 && left == 0 && v[0].enc == rs && v[1].enc == tail => {}
+                        other => ctx.violate("C13", "list-yields-other-records", &format!("size-sweep/{}", kt.name()), || format!("list [record of {size} bytes, record]: {:?}", other.map(|v| v.len())), replay),
+                    }
+                }
+            }
+        }
+        // a record followed by an INVALID sibling (forged copy with the same signature, tampered fields): the
+        // second item must get the verdict it gets alone (judged by RefDecode, not by a previous library call)
+        if !cfg!(miri) {
+            let mut forged: Vec<(&'static str, Vec<u8>)> = gen::field_tampers(&rec, &pool(scheme)[0], &other);
+            let sgn = rec.key.sign(&gen::content_of(&rec.items()));
+            for (k, v) in [(&b"zz"[..], vec![1u8, 2, 3]), (b"ip", vec![203, 0, 113, 66]), (b"udp", vec![0x99])] {
+                let mut r2 = rec.clone();
+                r2.map.insert(k.to_vec(), Item::S(v));
+                forged.push(("forged-copy-same-signature", gen::assemble_with_sig(&sgn, &r2.items())));
+            }
+            for (cls, x) in forged {
+                for &kt in &kts {
+                    let want = match ref_decode(&x, kt) {
+                        RefOut::Accept(_) => true,
+                        RefOut::Reject(_) => false,
+                        _ => continue,
+                    };
+                    let mut buf = valid.clone();
+                    buf.extend_from_slice(&x);
+                    ctx.count("evaluations");
+                    ctx.count("stream.mixed-sequences");
+                    let replay = || json!({"kind": "stream", "kt": kt.name(), "item": hex(&valid), "suffix": hex(&x), "class": cls});
+                    let got = decode_seq_kt(kt, &buf, 2);
+                    let first_ok = decode_seq_kt(kt, &buf, 1).is_ok();
+                    if !first_ok {
+                        ctx.violate("C13", "outcome-depends-on-following-bytes", &format!("valid-then-{cls}/{}", kt.name()), || "the valid first record is rejected".into(), replay);
+                    } else if got.is_ok() != want {
+                        ctx.violate("C13", "sequence-item-verdict-differs-from-alone", &format!("{cls}/{}", kt.name()), || {
+                            format!("second item (class {cls}) after a valid record: accepted={} but alone it is accepted={want}", got.is_ok())
+                        }, replay);
+                    }
+                    let listed = crate::props::rlp_wrap_list(&[valid.clone(), x.clone()]);
+                    let (res, _left, _p) = dec::list_kt(kt, &listed);
+                    if res.is_ok() != want {
+                        ctx.violate("C13", "list-item-verdict-differs-from-alone", &format!("{cls}/{}", kt.name()), || format!("list [valid, {cls}] accepted={}", res.is_ok()), replay);
+                    }
+                }
+            }
+        }
+        // back-to-back sequences and RLP lists of 1..=8 valid records
         for n in 1..=8usize {
             if cfg!(miri) && ctx.expired() {
                 break;
